@@ -54,7 +54,8 @@ def install_mprint():
         out = orig(self, applied, opts)
         try:
             if len(PRINT_LOG) < 200000:
-                args = tuple(applied.inst[k] for k in sorted(applied.inst))     # by parameter, not by dict position
+                # by parameter, not by dict position; a parameter the application leaves open is that metavariable itself
+                args = tuple(applied.inst[k] if k in applied.inst else P.MetaVar(k) for k in range(self.arity))
                 PRINT_LOG.append((self.label, id(self.definition), tuple(a.pretty(opts) for a in args), tb.show(tb.of_repo(applied)), out))
         except Exception:
             pass
